@@ -193,8 +193,9 @@ def c09_a(ctx: Ctx):
     reg = ctx.fn("signac.project:Project._register")
     st = [n for n in body_nodes(reg) if isinstance(n, ast.Assign) and any(isinstance(t, ast.Subscript) and canon(t.value) == "self._sp_cache" for t in n.targets)]
     sd = [n for n in body_nodes(reg) if isinstance(n, ast.Call) and isinstance(n.func, ast.Attribute) and n.func.attr == "setdefault"]
-    if st and not sd:
-        out.append(ctx.ok(R, reg, st[0], "_register stores unconditionally: a validated state point replaces an entry left by an unvalidated read"))
+    upd = [n for n in body_nodes(reg) if isinstance(n, ast.Call) and isinstance(n.func, ast.Attribute) and n.func.attr == "update" and canon(n.func.value) == "self._sp_cache"]
+    if (st or upd) and not sd:
+        out.append(ctx.ok(R, reg, (st or upd)[0], "_register stores unconditionally: a validated state point replaces an entry left by an unvalidated read"))
     elif sd:
         out.append(ctx.viol(R, reg, sd[0], "_register keeps an existing cache entry (setdefault): an entry stored by repair()'s unvalidated look-up survives the later validated registration, "
                             "is written to the persistent cache and is handed out for that id in the next session"))
